@@ -856,7 +856,7 @@ class Model:
                     mod = fl.get("size_modifier")
                     if mod:
                         if n < int(mod):
-                            st.fail("length", w_here)
+                            st.fail("length", w_here + " !size-below-modifier")
                         n -= int(mod)
                     need(n, w_here)
                 else:
@@ -926,7 +926,7 @@ class Model:
             n = sizes[i]
             if mod:
                 if n < mod:
-                    st.fail("length", where)
+                    st.fail("length", where + " !size-below-modifier")
                 n -= mod
             if len(region) < n:
                 st.fail("length", where)
